@@ -28,6 +28,7 @@ def c3(ctx):
 def c4(ctx):
     timing.dims_time(ctx)
     timing.beat_construction(ctx)
+    timing.event_pairing(ctx)
 
 
 def c_api(ctx):
